@@ -25,6 +25,10 @@ structure RawClosedE (Q : Env → List Ev → Prop) : Prop where
 def QRecE (Q : Env → List Ev → Prop) (rec : Rec) (a : AMode) : Prop :=
   ∀ j m env st r, rec j a m env st = some r → Q env r.raw
 
+/-- … restricted to the callees in `S`. -/
+def QRecS (Q : Env → List Ev → Prop) (rec : Rec) (a : AMode) (S : List Nat) : Prop :=
+  ∀ j ∈ S, ∀ m env st r, rec j a m env st = some r → Q env r.raw
+
 @[simp] theorem prepend_raw (raw surv : List Ev) (r : Ret) : (r.prepend raw surv).raw = raw ++ r.raw := rfl
 @[simp] theorem dropOnFail_raw (r : Ret) : r.dropOnFail.raw = r.raw := by
   unfold Ret.dropOnFail; split <;> rfl
@@ -36,50 +40,50 @@ section
 variable {Q : Env → List Ev → Prop} (hQ : RawClosedE Q) {rec : Rec}
 include hQ
 
-theorem seqAll_rawE (a : AMode) (hrec : QRecE Q rec a) (m : RMode) (env : Env) :
-    ∀ (cs : List Nat) (st : St) (r : Ret), seqAll rec a m env cs st = some r → Q env r.raw := by
+theorem seqAll_rawE (a : AMode) (S : List Nat) (hrec : QRecS Q rec a S) (m : RMode) (env : Env) :
+    ∀ (cs : List Nat), (∀ c ∈ cs, c ∈ S) → ∀ (st : St) (r : Ret), seqAll rec a m env cs st = some r → Q env r.raw := by
   intro cs
   induction cs with
-  | nil => intro st r h; simp only [seqAll, Option.some.injEq] at h; subst h; exact hQ.nil _
+  | nil => intro _ st r h; simp only [seqAll, Option.some.injEq] at h; subst h; exact hQ.nil _
   | cons c cs ih =>
-    intro st r h
+    intro hcs st r h
     simp only [seqAll] at h
     split at h
     · exact absurd h (by simp)
     · rename_i r1 h1
-      have q1 := hrec _ _ _ _ _ h1
+      have q1 := hrec c (hcs c (List.mem_cons_self ..)) _ _ _ _ h1
       split at h
       · split at h
         · exact absurd h (by simp)
         · rename_i r2 h2
           simp only [Option.some.injEq] at h; subst h
-          exact hQ.app q1 (ih _ _ h2)
+          exact hQ.app q1 (ih (fun x hx => hcs x (List.mem_cons_of_mem _ hx)) _ _ h2)
       · simp only [Option.some.injEq] at h; subst h; exact q1
 
-theorem sorAny_rawE (a : AMode) (hrec : QRecE Q rec a) (m : RMode) (env : Env) :
-    ∀ (cs : List Nat) (st : St) (r : Ret), sorAny rec a m env cs st = some r → Q env r.raw := by
+theorem sorAny_rawE (a : AMode) (S : List Nat) (hrec : QRecS Q rec a S) (m : RMode) (env : Env) :
+    ∀ (cs : List Nat), (∀ c ∈ cs, c ∈ S) → ∀ (st : St) (r : Ret), sorAny rec a m env cs st = some r → Q env r.raw := by
   intro cs
   induction cs with
-  | nil => intro st r h; simp only [sorAny, Option.some.injEq] at h; subst h; exact hQ.nil _
+  | nil => intro _ st r h; simp only [sorAny, Option.some.injEq] at h; subst h; exact hQ.nil _
   | cons c cs ih =>
-    intro st r h
+    intro hcs st r h
     cases cs with
-    | nil => simp only [sorAny] at h; exact hrec _ _ _ _ _ h
+    | nil => simp only [sorAny] at h; exact hrec c (hcs c (List.mem_cons_self ..)) _ _ _ _ h
     | cons c' cs' =>
       simp only [sorAny] at h
       split at h
       · exact absurd h (by simp)
       · rename_i r1 h1
-        have q1 := hrec _ _ _ _ _ h1
+        have q1 := hrec c (hcs c (List.mem_cons_self ..)) _ _ _ _ h1
         split at h
         · split at h
           · exact absurd h (by simp)
           · rename_i r2 h2
             simp only [Option.some.injEq] at h; subst h
-            exact hQ.app q1 (ih _ _ h2)
+            exact hQ.app q1 (ih (fun x hx => hcs x (List.mem_cons_of_mem _ hx)) _ _ h2)
         · simp only [Option.some.injEq] at h; subst h; exact q1
 
-theorem loopStar_rawE (a : AMode) (hrec : QRecE Q rec a) (env : Env) (cs : List Nat) :
+theorem loopStar_rawE (a : AMode) (S : List Nat) (hrec : QRecS Q rec a S) (env : Env) (cs : List Nat) (hcs : ∀ c ∈ cs, c ∈ S) :
     ∀ (k : Nat) (st : St) (r : Ret), loopStar rec a env cs k st = some r → Q env r.raw := by
   intro k
   induction k with
@@ -90,7 +94,7 @@ theorem loopStar_rawE (a : AMode) (hrec : QRecE Q rec a) (env : Env) (cs : List 
     split at h
     · exact absurd h (by simp)
     · rename_i r1 h1
-      have q1 := seqAll_rawE hQ a hrec .required env cs st r1 h1
+      have q1 := seqAll_rawE hQ a S hrec .required env cs hcs st r1 h1
       split at h
       · split at h
         · exact absurd h (by simp)
@@ -100,7 +104,7 @@ theorem loopStar_rawE (a : AMode) (hrec : QRecE Q rec a) (env : Env) (cs : List 
       · simp only [Option.some.injEq] at h; subst h; exact q1
       · simp only [Option.some.injEq] at h; subst h; exact q1
 
-theorem repN_rawE (a : AMode) (hrec : QRecE Q rec a) (m : RMode) (env : Env) (c : Nat) :
+theorem repN_rawE (a : AMode) (S : List Nat) (hrec : QRecS Q rec a S) (m : RMode) (env : Env) (c : Nat) (hc : c ∈ S) :
     ∀ (k : Nat) (st : St) (r : Ret), repN rec a m env c k st = some r → Q env r.raw := by
   intro k
   induction k with
@@ -111,7 +115,7 @@ theorem repN_rawE (a : AMode) (hrec : QRecE Q rec a) (m : RMode) (env : Env) (c 
     split at h
     · exact absurd h (by simp)
     · rename_i r1 h1
-      have q1 := hrec _ _ _ _ _ h1
+      have q1 := hrec c hc _ _ _ _ h1
       split at h
       · split at h
         · exact absurd h (by simp)
@@ -120,7 +124,7 @@ theorem repN_rawE (a : AMode) (hrec : QRecE Q rec a) (m : RMode) (env : Env) (c 
           exact hQ.app q1 (ih _ _ h2)
       · simp only [Option.some.injEq] at h; subst h; exact q1
 
-theorem repUpTo_rawE (a : AMode) (hrec : QRecE Q rec a) (env : Env) (c : Nat) :
+theorem repUpTo_rawE (a : AMode) (S : List Nat) (hrec : QRecS Q rec a S) (env : Env) (c : Nat) (hc : c ∈ S) :
     ∀ (k : Nat) (st : St) (r : Ret) (full : Bool), repUpTo rec a env c k st = some (r, full) → Q env r.raw := by
   intro k
   induction k with
@@ -134,7 +138,7 @@ theorem repUpTo_rawE (a : AMode) (hrec : QRecE Q rec a) (env : Env) (c : Nat) :
     split at h
     · exact absurd h (by simp)
     · rename_i r1 h1
-      have q1 := hrec _ _ _ _ _ h1
+      have q1 := hrec c hc _ _ _ _ h1
       split at h
       · split at h
         · exact absurd h (by simp)
@@ -147,7 +151,7 @@ theorem repUpTo_rawE (a : AMode) (hrec : QRecE Q rec a) (env : Env) (c : Nat) :
       · simp only [Option.some.injEq, Prod.mk.injEq] at h
         obtain ⟨h, _⟩ := h; subst h; exact q1
 
-theorem loopUntil1_rawE (cx : Ctx) (a : AMode) (hrec : QRecE Q rec a) (env : Env) (cond : Nat) :
+theorem loopUntil1_rawE (cx : Ctx) (a : AMode) (S : List Nat) (hrec : QRecS Q rec a S) (env : Env) (cond : Nat) (hc : cond ∈ S) :
     ∀ (k : Nat) (st : St) (r : Ret), loopUntil1 cx rec a env cond k st = some r → Q env r.raw := by
   intro k
   induction k with
@@ -158,7 +162,7 @@ theorem loopUntil1_rawE (cx : Ctx) (a : AMode) (hrec : QRecE Q rec a) (env : Env
     split at h
     · exact absurd h (by simp)
     · rename_i r1 h1
-      have q1 := hrec _ _ _ _ _ h1
+      have q1 := hrec cond hc _ _ _ _ h1
       split at h
       · simp only [Option.some.injEq] at h; subst h; exact q1
       · simp only [Option.some.injEq] at h; subst h; exact q1
@@ -170,7 +174,7 @@ theorem loopUntil1_rawE (cx : Ctx) (a : AMode) (hrec : QRecE Q rec a) (env : Env
             simp only [Option.some.injEq] at h; subst h
             exact hQ.app q1 (ih _ _ h2)
 
-theorem loopUntil2_rawE (a : AMode) (hrec : QRecE Q rec a) (env : Env) (cond b : Nat) :
+theorem loopUntil2_rawE (a : AMode) (S : List Nat) (hrec : QRecS Q rec a S) (env : Env) (cond b : Nat) (hc : cond ∈ S) (hb : b ∈ S) :
     ∀ (k : Nat) (st : St) (r : Ret), loopUntil2 rec a env cond b k st = some r → Q env r.raw := by
   intro k
   induction k with
@@ -181,14 +185,14 @@ theorem loopUntil2_rawE (a : AMode) (hrec : QRecE Q rec a) (env : Env) (cond b :
     split at h
     · exact absurd h (by simp)
     · rename_i r1 h1
-      have q1 := hrec _ _ _ _ _ h1
+      have q1 := hrec cond hc _ _ _ _ h1
       split at h
       · simp only [Option.some.injEq] at h; subst h; exact q1
       · simp only [Option.some.injEq] at h; subst h; exact q1
       · split at h
         · exact absurd h (by simp)
         · rename_i r2 h2
-          have q2 := hrec _ _ _ _ _ h2
+          have q2 := hrec b hb _ _ _ _ h2
           split at h
           · split at h
             · exact absurd h (by simp)
@@ -199,7 +203,7 @@ theorem loopUntil2_rawE (a : AMode) (hrec : QRecE Q rec a) (env : Env) (cond b :
           · simp only [Option.some.injEq] at h; subst h
             exact hQ.app q1 q2
 
-theorem loopStarStrict_rawE (a : AMode) (hrec : QRecE Q rec a) (env : Env) (c rest : Nat) :
+theorem loopStarStrict_rawE (a : AMode) (S : List Nat) (hrec : QRecS Q rec a S) (env : Env) (c rest : Nat) (hc : c ∈ S) (hr : rest ∈ S) :
     ∀ (k : Nat) (st : St) (r : Ret), loopStarStrict rec a env c rest k st = some r → Q env r.raw := by
   intro k
   induction k with
@@ -210,14 +214,14 @@ theorem loopStarStrict_rawE (a : AMode) (hrec : QRecE Q rec a) (env : Env) (c re
     split at h
     · exact absurd h (by simp)
     · rename_i r1 h1
-      have q1 := hrec _ _ _ _ _ h1
+      have q1 := hrec c hc _ _ _ _ h1
       split at h
       · simp only [Option.some.injEq] at h; subst h; exact q1
       · simp only [Option.some.injEq] at h; subst h; exact q1
       · split at h
         · exact absurd h (by simp)
         · rename_i r2 h2
-          have q2 := hrec _ _ _ _ _ h2
+          have q2 := hrec rest hr _ _ _ _ h2
           split at h
           · split at h
             · exact absurd h (by simp)
@@ -228,98 +232,98 @@ theorem loopStarStrict_rawE (a : AMode) (hrec : QRecE Q rec a) (env : Env) (c re
           · simp only [Option.some.injEq] at h; subst h
             exact hQ.app q1 q2
 
-theorem rematchAll_rawE (a : AMode) (hrec : QRecE Q rec a) (env : Env) (saved : Cursor) :
-    ∀ (rs : List Nat) (st : St) (r : Ret), rematchAll rec a env saved rs st = some r → Q env r.raw := by
+theorem rematchAll_rawE (a : AMode) (S : List Nat) (hrec : QRecS Q rec a S) (env : Env) (saved : Cursor) :
+    ∀ (rs : List Nat), (∀ c ∈ rs, c ∈ S) → ∀ (st : St) (r : Ret), rematchAll rec a env saved rs st = some r → Q env r.raw := by
   intro rs
   induction rs with
-  | nil => intro st r h; simp only [rematchAll, Option.some.injEq] at h; subst h; exact hQ.nil _
+  | nil => intro _ st r h; simp only [rematchAll, Option.some.injEq] at h; subst h; exact hQ.nil _
   | cons c cs ih =>
-    intro st r h
+    intro hcs st r h
     simp only [rematchAll] at h
     split at h
     · exact absurd h (by simp)
     · rename_i r1 h1
-      have q1 := hrec _ _ _ _ _ h1
+      have q1 := hrec c (hcs c (List.mem_cons_self ..)) _ _ _ _ h1
       split at h
       · split at h
         · exact absurd h (by simp)
         · rename_i r2 h2
           simp only [Option.some.injEq] at h; subst h
-          exact hQ.app q1 (ih _ r2 h2)
+          exact hQ.app q1 (ih (fun x hx => hcs x (List.mem_cons_of_mem _ hx)) _ r2 h2)
       · simp only [Option.some.injEq] at h; subst h; exact q1
 
 /-- The trace of every rule body satisfies any trace predicate closed under concatenation and
     `raise` events, given that the traces of the sub-rule calls it can make do: calls with its own
     apply mode, calls with actions disabled (`at`, `not_at`, `disable`), and — only for `enable` —
     calls with actions enabled. -/
-theorem body_rawE (cx : Ctx) (k : Nat) (kind : Kind) (a : AMode) (hrec : QRecE Q rec a) (hoff : QRecE Q rec .nothing)
-    (hon : (∃ c, kind = .enable c) → QRecE Q rec .action) (m : RMode) (env : Env) (st : St) (r : Ret)
+theorem body_rawS (cx : Ctx) (k : Nat) (kind : Kind) (a : AMode) (hrec : QRecS Q rec a kind.calls) (hoff : QRecS Q rec .nothing kind.calls)
+    (hon : (∃ c, kind = .enable c) → QRecS Q rec .action kind.calls) (m : RMode) (env : Env) (st : St) (r : Ret)
     (h : body cx rec k kind a m env st = some r) : Q env r.raw := by
   cases kind with
   | atom atm => simp only [body, Option.some.injEq] at h; subst h; exact hQ.nil _
   | seq cs =>
     simp only [body] at h
     split at h
-    · exact hrec _ _ _ _ _ h
+    · exact hrec _ (by simp [Kind.calls]) _ _ _ _ h
     · simp only [Option.map_eq_some_iff] at h
       obtain ⟨r0, h0, rfl⟩ := h
-      simpa using seqAll_rawE hQ a hrec _ _ _ _ _ h0
-  | sor cs => simp only [body] at h; exact sorAny_rawE hQ a hrec _ _ _ _ _ h
-  | starPartial cs => simp only [body] at h; exact loopStar_rawE hQ a hrec _ _ _ _ _ h
+      simpa using seqAll_rawE hQ a _ hrec _ _ _ (by intro x hx; simp [Kind.calls, hx]) _ _ h0
+  | sor cs => simp only [body] at h; exact sorAny_rawE hQ a _ hrec _ _ _ (by intro x hx; simp [Kind.calls, hx]) _ _ h
+  | starPartial cs => simp only [body] at h; exact loopStar_rawE hQ a _ hrec _ _ (by intro x hx; simp [Kind.calls, hx]) _ _ _ h
   | partialR cs =>
     simp only [body, Option.map_eq_some_iff] at h
     obtain ⟨r0, h0, rfl⟩ := h
-    have := seqAll_rawE hQ a hrec _ _ _ _ _ h0
+    have := seqAll_rawE hQ a _ hrec _ _ _ (by intro x hx; simp [Kind.calls, hx]) _ _ h0
     split <;> exact this
   | plus c =>
     simp only [body] at h
     split at h
     · exact absurd h (by simp)
     · rename_i r1 h1
-      have q1 := hrec _ _ _ _ _ h1
+      have q1 := hrec _ (by simp [Kind.calls]) _ _ _ _ h1
       split at h
       · simp only [Option.map_eq_some_iff] at h
         obtain ⟨r2, h2, rfl⟩ := h
-        exact hQ.app q1 (loopStar_rawE hQ a hrec _ _ _ _ _ h2)
+        exact hQ.app q1 (loopStar_rawE hQ a _ hrec _ _ (by intro x hx; simp [Kind.calls, hx]) _ _ _ h2)
       · simp only [Option.some.injEq] at h; subst h; exact q1
   | atR c =>
     simp only [body, Option.map_eq_some_iff] at h
     obtain ⟨r0, h0, rfl⟩ := h
-    exact hoff _ _ _ _ r0 h0
+    exact hoff _ (by simp [Kind.calls]) _ _ _ r0 h0
   | notAt c =>
     simp only [body, Option.map_eq_some_iff] at h
     obtain ⟨r0, h0, rfl⟩ := h
-    have := hoff _ _ _ _ _ h0
+    have := hoff _ (by simp [Kind.calls]) _ _ _ _ h0
     split <;> exact this
   | until1 cond =>
     simp only [body, Option.map_eq_some_iff] at h
     obtain ⟨r0, h0, rfl⟩ := h
-    simpa using loopUntil1_rawE hQ cx a hrec _ _ _ _ _ h0
+    simpa using loopUntil1_rawE hQ cx a _ hrec _ _ (by simp [Kind.calls]) _ _ _ h0
   | until2 cond b =>
     simp only [body, Option.map_eq_some_iff] at h
     obtain ⟨r0, h0, rfl⟩ := h
-    simpa using loopUntil2_rawE hQ a hrec _ _ _ _ _ _ h0
+    simpa using loopUntil2_rawE hQ a _ hrec _ _ _ (by simp [Kind.calls]) (by simp [Kind.calls]) _ _ _ h0
   | rep n c =>
     simp only [body, Option.map_eq_some_iff] at h
     obtain ⟨r0, h0, rfl⟩ := h
-    simpa using repN_rawE hQ a hrec _ _ _ _ _ _ h0
+    simpa using repN_rawE hQ a _ hrec _ _ _ (by simp [Kind.calls]) _ _ _ h0
   | repMinMax lo hi c na =>
     simp only [body] at h
     split at h
     · exact absurd h (by simp)
     · rename_i r1 h1
-      have q1 := repN_rawE hQ a hrec _ _ _ _ _ _ h1
+      have q1 := repN_rawE hQ a _ hrec _ _ _ (by simp [Kind.calls]) _ _ _ h1
       split at h
       · split at h
         · exact absurd h (by simp)
         · rename_i r2 full h2
-          have q2 := repUpTo_rawE hQ a hrec _ _ _ _ _ _ h2
+          have q2 := repUpTo_rawE hQ a _ hrec _ _ (by simp [Kind.calls]) _ _ _ _ h2
           split at h
           · split at h
             · exact absurd h (by simp)
             · rename_i r3 h3
               simp only [Option.some.injEq] at h; subst h
-              have q3 := hrec _ _ _ _ _ h3
+              have q3 := hrec _ (by simp [Kind.calls]) _ _ _ _ h3
               simp only [dropOnFail_raw, guardRestore_raw, prepend_raw]
               exact hQ.app (hQ.app q1 q2) q3
           · simp only [Option.some.injEq] at h; subst h
@@ -330,20 +334,20 @@ theorem body_rawE (cx : Ctx) (k : Nat) (kind : Kind) (a : AMode) (hrec : QRecE Q
   | repOpt n c =>
     simp only [body, Option.map_eq_some_iff] at h
     obtain ⟨⟨r0, full⟩, h0, rfl⟩ := h
-    exact repUpTo_rawE hQ a hrec _ _ _ _ _ _ h0
+    exact repUpTo_rawE hQ a _ hrec _ _ (by simp [Kind.calls]) _ _ _ _ h0
   | ifThenElse c t e =>
     simp only [body] at h
     split at h
     · exact absurd h (by simp)
     · rename_i r1 h1
-      have q1 := hrec _ _ _ _ _ h1
+      have q1 := hrec _ (by simp [Kind.calls]) _ _ _ _ h1
       split at h
       · simp only [Option.map_eq_some_iff] at h
         obtain ⟨r2, h2, rfl⟩ := h
-        simpa using hQ.app q1 (hrec _ _ _ _ _ h2)
+        simpa using hQ.app q1 (hrec _ (by simp [Kind.calls]) _ _ _ _ h2)
       · simp only [Option.map_eq_some_iff] at h
         obtain ⟨r2, h2, rfl⟩ := h
-        simpa using hQ.app q1 (hrec _ _ _ _ _ h2)
+        simpa using hQ.app q1 (hrec _ (by simp [Kind.calls]) _ _ _ _ h2)
       · simp only [Option.some.injEq] at h; subst h
         simpa using q1
   | strict c rest =>
@@ -351,32 +355,32 @@ theorem body_rawE (cx : Ctx) (k : Nat) (kind : Kind) (a : AMode) (hrec : QRecE Q
     split at h
     · exact absurd h (by simp)
     · rename_i r1 h1
-      have q1 := hrec _ _ _ _ _ h1
+      have q1 := hrec _ (by simp [Kind.calls]) _ _ _ _ h1
       split at h
       · simp only [Option.map_eq_some_iff] at h
         obtain ⟨r2, h2, rfl⟩ := h
-        simpa using hQ.app q1 (hrec _ _ _ _ _ h2)
+        simpa using hQ.app q1 (hrec _ (by simp [Kind.calls]) _ _ _ _ h2)
       · simp only [Option.some.injEq] at h; subst h; exact q1
       · simp only [Option.some.injEq] at h; subst h
         simpa using q1
   | starStrict c rest =>
     simp only [body, Option.map_eq_some_iff] at h
     obtain ⟨r0, h0, rfl⟩ := h
-    simpa using loopStarStrict_rawE hQ a hrec _ _ _ _ _ _ h0
+    simpa using loopStarStrict_rawE hQ a _ hrec _ _ _ (by simp [Kind.calls]) (by simp [Kind.calls]) _ _ _ h0
   | rematch head rs =>
     simp only [body] at h
     split at h
-    · exact hrec _ _ _ _ _ h
+    · exact hrec _ (by simp [Kind.calls]) _ _ _ _ h
     · split at h
       · exact absurd h (by simp)
       · rename_i r1 h1
-        have q1 := hrec _ _ _ _ _ h1
+        have q1 := hrec _ (by simp [Kind.calls]) _ _ _ _ h1
         split at h
         · split at h
           · exact absurd h (by simp)
           · rename_i r2 h2
             simp only [Option.some.injEq] at h; subst h
-            have q2 := rematchAll_rawE hQ a hrec _ _ _ _ _ h2
+            have q2 := rematchAll_rawE hQ a _ hrec _ _ _ (by intro x hx; simp [Kind.calls, hx]) _ _ h2
             simp only [dropOnFail_raw, guardRestore_raw, prepend_raw]
             exact hQ.app q1 q2
         · simp only [Option.some.injEq] at h; subst h
@@ -386,7 +390,7 @@ theorem body_rawE (cx : Ctx) (k : Nat) (kind : Kind) (a : AMode) (hrec : QRecE Q
     split at h
     · exact absurd h (by simp)
     · rename_i r1 h1
-      have q1 := hrec _ _ _ _ _ h1
+      have q1 := hrec _ (by simp [Kind.calls]) _ _ _ _ h1
       split at h
       · simp only [Option.some.injEq] at h; subst h
         exact hQ.app q1 (hQ.raise _ _ _)
@@ -396,11 +400,11 @@ theorem body_rawE (cx : Ctx) (k : Nat) (kind : Kind) (a : AMode) (hrec : QRecE Q
     split at h
     · exact absurd h (by simp)
     · rename_i r1 h1
-      have q1 := hrec _ _ _ _ _ h1
+      have q1 := hrec _ (by simp [Kind.calls]) _ _ _ _ h1
       split at h
       · simp only [Option.map_eq_some_iff] at h
         obtain ⟨r2, h2, rfl⟩ := h
-        have q2 := hrec _ _ _ _ _ h2
+        have q2 := hrec _ (by simp [Kind.calls]) _ _ _ _ h2
         split
         · simpa using hQ.app q1 q2
         · exact hQ.app q1 q2
@@ -412,7 +416,7 @@ theorem body_rawE (cx : Ctx) (k : Nat) (kind : Kind) (a : AMode) (hrec : QRecE Q
   | tryCatchReturnFalse ex c =>
     simp only [body, Option.map_eq_some_iff] at h
     obtain ⟨r0, h0, rfl⟩ := h
-    have q := hrec _ _ _ _ _ h0
+    have q := hrec _ (by simp [Kind.calls]) _ _ _ _ h0
     simp only [dropOnFail_raw, guardRestore_raw]
     split
     · split <;> exact q
@@ -420,22 +424,29 @@ theorem body_rawE (cx : Ctx) (k : Nat) (kind : Kind) (a : AMode) (hrec : QRecE Q
   | tryCatchRaiseNested ex c =>
     simp only [body, Option.map_eq_some_iff] at h
     obtain ⟨r0, h0, rfl⟩ := h
-    have q := hrec _ _ _ _ _ h0
+    have q := hrec _ (by simp [Kind.calls]) _ _ _ _ h0
     simp only [dropOnFail_raw, guardRestore_raw]
     split
     · split <;> exact q
     · exact q
-  | enable c => simp only [body] at h; exact hon ⟨c, rfl⟩ _ _ _ _ _ h
-  | disable c => simp only [body] at h; exact hoff _ _ _ _ _ h
-  | action fam c => simp only [body] at h; exact hQ.fam (hrec _ _ _ _ _ h)
+  | enable c => simp only [body] at h; exact hon ⟨c, rfl⟩ _ (by simp [Kind.calls]) _ _ _ _ h
+  | disable c => simp only [body] at h; exact hoff _ (by simp [Kind.calls]) _ _ _ _ h
+  | action fam c => simp only [body] at h; exact hQ.fam (hrec _ (by simp [Kind.calls]) _ _ _ _ h)
   | state d c =>
     simp only [body, Option.map_eq_some_iff] at h
     obtain ⟨r0, h0, rfl⟩ := h
-    have q := hrec _ _ _ _ _ h0
+    have q := hrec _ (by simp [Kind.calls]) _ _ _ _ h0
     unfold stateScope
     split
     · exact hQ.scope _ (Or.inr ⟨_, rfl⟩) q
     · exact hQ.scope _ (Or.inl rfl) q
+
+
+/-- The unrestricted form: every callee's trace satisfies `Q`. -/
+theorem body_rawE (cx : Ctx) (k : Nat) (kind : Kind) (a : AMode) (hrec : QRecE Q rec a) (hoff : QRecE Q rec .nothing)
+    (hon : (∃ c, kind = .enable c) → QRecE Q rec .action) (m : RMode) (env : Env) (st : St) (r : Ret)
+    (h : body cx rec k kind a m env st = some r) : Q env r.raw :=
+  body_rawS hQ cx k kind a (fun j _ => hrec j) (fun j _ => hoff j) (fun he j _ => hon he j) m env st r h
 
 end
 
